@@ -11,6 +11,8 @@
  *              0 = no data reads); larger or inconsistent (negative) sizes print `skipped`
  *   -i         additionally read every variable in independent data mode and compare
  *   -q         print only the summary lines (open/rusage/ranks), not the dump
+ *   -V         after the dump, call ncmpi_get_vard_all on variable 0 with a ZERO-SIZE filetype and a
+ *              4-int buffer (prints `vard_zero <rc> <first word>`; run under valgrind: finding F12)
  *
  * Output (rank 0, stdout).  All names and data are lower-case hex; data is printed in the
  * EXTERNAL (big-endian) representation, i.e. exactly the bytes the file must contain:
@@ -161,7 +163,7 @@ static void dump_att(int ncid, int varid, int idx, long long maxdata)
 
 int main(int argc, char **argv)
 {
-    int rank, nprocs, ncid = -1, rc, i, j, nhints = 0, indep = 0, quiet = 0;
+    int rank, nprocs, ncid = -1, rc, i, j, nhints = 0, indep = 0, quiet = 0, vard = 0;
     long long maxdata = 1 << 20;
     const char *path;
     MPI_Info info = MPI_INFO_NULL;
@@ -189,6 +191,7 @@ int main(int argc, char **argv)
         else if (!strcmp(argv[i], "-d") && i + 1 < argc) maxdata = atoll(argv[++i]);
         else if (!strcmp(argv[i], "-i")) indep = 1;
         else if (!strcmp(argv[i], "-q")) quiet = 1;
+        else if (!strcmp(argv[i], "-V")) vard = 1;
     }
 
     gettimeofday(&t0, NULL);
@@ -288,6 +291,15 @@ int main(int argc, char **argv)
             }
             free(b);
         }
+    }
+    if (vard && nvars > 0) {
+        MPI_Datatype ft;
+        int vb[4] = { 0x11111111, 0x22222222, 0x33333333, 0x44444444 };
+        MPI_Type_contiguous(0, MPI_BYTE, &ft);
+        MPI_Type_commit(&ft);
+        rc = ncmpi_get_vard_all(ncid, 0, ft, vb, 4, MPI_INT);
+        out("vard_zero %d %08x\n", rc, (unsigned)vb[0]);
+        MPI_Type_free(&ft);
     }
     rc = ncmpi_close(ncid);
     out("close %d\n", rc);
